@@ -179,6 +179,7 @@ def part_pyexpr(run):
     if len(cases) < 20000:
         raise MachineryError("PyExpr printed only %d expressions" % len(cases))
     forms = _forms_table(res)
+    leafcls = _leaf_classes()
     # the specification's own precedence table is judged by CPython first
     for k, c in list(cases.items()) + list(extra.items()):
         try:
@@ -204,12 +205,15 @@ def part_pyexpr(run):
         the failure is attributed to that sub-chain, with the mode it shows there"""
         spine, leaf = key
         n = len(spine)
-        for ln in range(1, n + 1):
+        special = leaf in leafcls          # a degenerate atom: it is the innermost element of the chain, by its class
+        for ln in range(0, n + 1):
             for st in range(0, n - ln + 1):
                 w = spine[st:st + ln]
                 for lf in ("a", leaf):
                     k2 = (w, lf)
                     if (k2 in cases or k2 in extra) and mode_of(k2, which)[0] != "ok":
+                        if lf == leaf and special:
+                            return ">".join([label(fid, False, False) for fid in w] + [leafcls[leaf]]), k2
                         return ">".join(label(fid, i == ln - 1, ln == 1) for i, fid in enumerate(w)), k2
         return "leaf(%s)" % leaf, key
     stats = {"ok": 0, "bad": 0}
@@ -279,6 +283,19 @@ def _forms_table(res):
         out[m.group(1)] = {"cls": m.group(2), "pos": m.group(3)}
     if len(out) < 50:
         raise MachineryError("could not read the Forms table of PyExpr.tla")
+    return out
+
+
+def _leaf_classes():
+    """text -> class of the degenerate atoms (deep |-> FALSE) of PyExpr.tla"""
+    txt = open(core.SPEC_DIR + "/PyExpr.tla").read()
+    out = {}
+    for line in txt.split("\n"):
+        if "deep |-> FALSE" in line:
+            text = line[line.index('text |-> "') + 10:line.index('", prec |->')].replace('\\"', '"')
+            out[text] = line[line.index('cls |-> "') + 9:line.rindex('"')]
+    if len(out) < 10:
+        raise MachineryError("could not read the degenerate leaves of PyExpr.tla")
     return out
 
 
